@@ -4,7 +4,8 @@ Every statement inside the bodies of the methods listed in translate_core.FUNCS 
 every pair of adjacent statements is swapped.  A mutant is
   refused   the translator raises Unsupported (fail closed),
   same      the generated text does not change (only the documented no-op idioms may do that),
-  killed    Proofs/CoreTie.v (or the generated file) no longer compiles against the regenerated embedding,
+  killed    a Proofs/CoreTie*.v file (or a generated file) no longer compiles against the regenerated embedding,
+  SPILL     files of a source group that does not depend on the mutated file broke (must not happen),
   SURVIVED  the tie still compiles: the mutant is behaviourally equal for the model, or a hole.
 Works in /tmp/core_mut.* (removed at the end), never touches /repo or coq/Gen.  Usage:
   mutate_core.py [jobs] [-v]            (needs Model/PyRt3.vo and the FT libraries compiled)
@@ -14,10 +15,11 @@ from concurrent.futures import ThreadPoolExecutor
 
 sys.path.insert(0, os.path.dirname(os.path.abspath(__file__)))
 import translate_core as T
+import selftest_core as S
 
 REPO = os.environ.get("VERIF_REPO", "/repo")
 COQ = os.path.join(os.path.dirname(os.path.dirname(os.path.abspath(__file__))), "coq")
-strip = lambda t: "\n".join(l for l in t.split("\n") if "sha256=" not in l and not l.startswith("(* GENERATED"))
+strip = T.strip_header
 
 
 def bodies(fn):
@@ -79,35 +81,23 @@ def prepare(job, root):
     except Exception as e:
         shutil.rmtree(d, ignore_errors=True)
         return what, "refused", "internal %s: %s" % (type(e).__name__, str(e)[:60])
-    shutil.rmtree(os.path.join(d, "src"), ignore_errors=True)
     if strip(out) == base:
         shutil.rmtree(d, ignore_errors=True)
         return what, "same", ""
-    os.makedirs(d + "/coq/Gen"); os.makedirs(d + "/coq/Proofs")
-    open(d + "/coq/Gen/Core_gen.v", "w").write(out)
-    tie = open(os.path.join(COQ, "Proofs", "CoreTie.v")).read()
-    imp = "From FT Require Import Base.Dict Model.Edit Model.PyRt Model.PyRt3 Gen.Core_gen."
-    assert imp in tie
-    open(d + "/coq/Proofs/CoreTie.v", "w").write(tie.replace(imp, "From FT Require Import Base.Dict Model.Edit Model.PyRt Model.PyRt3. From SC Require Import Gen.Core_gen."))
-    return what, None, d
+    return what, None, (d, rel)
 
 
 def compile_(item):
-    what, verdict, d = item
+    what, verdict, x = item
     if verdict is not None: return item
-    q = ["-Q", COQ, "FT", "-Q", ".", "SC"]
-    r = subprocess.run(["timeout", "600", "coqc"] + q + ["Gen/Core_gen.v"], cwd=d + "/coq", capture_output=True, text=True)
-    if r.returncode == 0:
-        r = subprocess.run(["timeout", "900", "coqc"] + q + ["Proofs/CoreTie.v"], cwd=d + "/coq", capture_output=True, text=True)
-        if r.returncode == 0:
-            shutil.rmtree(d, ignore_errors=True)
-            return what, "SURVIVED", ""
-        err = [l.strip() for l in (r.stderr + r.stdout).split("\n") if l.startswith("File")]
-        detail = " ".join(err)[:90]
-    else:
-        detail = "generated file does not type-check"
+    d, rel = x
+    refused, failed, detail = S.build_scratch(d, d)
     shutil.rmtree(d, ignore_errors=True)
-    return what, "killed", detail
+    allowed = S.DOWNSTREAM[S.GROUP_OF.get(rel, "actions")]
+    spill = [f for f, grp in failed if grp not in allowed]
+    if spill: return what, "SPILL", "broke files of an untouched source group: %s" % ", ".join(spill)
+    if not failed: return what, "SURVIVED", ""
+    return what, "killed", detail[:90]
 
 
 if __name__ == "__main__":
@@ -120,7 +110,7 @@ if __name__ == "__main__":
         with ThreadPoolExecutor(jobs) as ex:
             for what, verdict, detail in ex.map(compile_, work):
                 count[verdict] = count.get(verdict, 0) + 1
-                if verdict in ("SURVIVED", "same") or "-v" in sys.argv: print("%-9s %s  %s" % (verdict, what, detail), flush=True)
+                if verdict in ("SURVIVED", "same", "SPILL") or "-v" in sys.argv: print("%-9s %s  %s" % (verdict, what, detail), flush=True)
     finally:
         shutil.rmtree(root, ignore_errors=True)
     print("mutants: %d  %s" % (len(work), "  ".join("%s=%d" % kv for kv in sorted(count.items()))))
